@@ -31,7 +31,12 @@ for sid in seeds:
             sys.stdout.flush()
     finally:
         subprocess.run(['git', '-C', '/repo', 'checkout', '--', '.'], check=True)
-json.dump(out, open('/tmp/run_seeded.json', 'w'), indent=1)
+try:
+    allout = json.load(open('/tmp/run_seeded.json'))
+except Exception:  # noqa
+    allout = {}
+allout.update(out)
+json.dump(allout, open('/tmp/run_seeded.json', 'w'), indent=1)
 shutil.rmtree(os.path.join(VERIF, 'evidence'))
 shutil.copytree(os.path.join(keep, 'evidence'), os.path.join(VERIF, 'evidence'))
 shutil.rmtree(keep)
